@@ -127,6 +127,9 @@ def run(spec, res):
                            % (o, n))
         res.ev(dg, len(list(out.variables.keys())) > 0)
         if bad:
+            # a malformed file is not a valid input for the next operation:
+            # the program ends here (one defect, one report)
+            st.meta['stop'] = True
             res.viol('malformed-result:' + st.op, '%s -> %s (program %s)'
                      % (st.desc, '; '.join(bad[:5]), trace), op=st.op,
                      meta=st.meta, problems=bad[:8])
